@@ -378,12 +378,50 @@ class ParamRenamer(ast.NodeTransformer):
         return node
 
 
+class Delegator(ast.NodeTransformer):
+    """every plain method `m(self, ...)` keeps a stub `return self._m__impl(...)`; the body moves to `_m__impl`"""
+
+    def visit_ClassDef(self, node):
+        self.generic_visit(node)
+        new_body: list[ast.stmt] = []
+        for st in node.body:
+            new_body.append(st)
+            if not isinstance(st, ast.FunctionDef) or (st.name.startswith("__") and st.name.endswith("__")):
+                continue
+            a = st.args
+            if a.vararg or a.kwarg or a.posonlyargs or a.kwonlyargs or not a.args or a.args[0].arg != "self":
+                continue
+            if any(isinstance(d, ast.Name) and d.id in ("abstractmethod", "overload", "staticmethod", "classmethod") or (isinstance(d, ast.Attribute) and d.attr in ("setter", "abstractmethod")) for d in st.decorator_list):
+                continue
+            if any(isinstance(x, (ast.Yield, ast.YieldFrom, ast.Await, ast.Global, ast.Nonlocal)) for x in ast.walk(st)):
+                continue
+            if any(isinstance(x, (ast.FunctionDef, ast.AsyncFunctionDef, ast.Lambda, ast.ClassDef, ast.ListComp, ast.SetComp, ast.DictComp, ast.GeneratorExp)) for x in ast.walk(st) if x is not st):
+                continue
+            if any(isinstance(x, ast.Call) and isinstance(x.func, ast.Name) and x.func.id == "super" for x in ast.walk(st)):
+                continue
+            body = st.body
+            doc = body[:1] if body and isinstance(body[0], ast.Expr) and isinstance(body[0].value, ast.Constant) and isinstance(body[0].value.value, str) else []
+            rest = body[len(doc):]
+            if not rest or all(isinstance(x, ast.Pass) or (isinstance(x, ast.Expr) and isinstance(x.value, ast.Constant)) for x in rest):
+                continue
+            impl_name = f"_impl_{node.name}_{st.name}"  # per class: an override of m must not capture the base stub's delegation
+            impl = ast.FunctionDef(name=impl_name, args=ast.arguments(posonlyargs=[], args=[ast.arg(arg=x.arg) for x in a.args], vararg=None, kwonlyargs=[], kw_defaults=[], kwarg=None, defaults=[]), body=rest, decorator_list=[], returns=None, type_comment=None, type_params=[])
+            call = ast.Call(func=ast.Attribute(value=ast.Name(id="self", ctx=ast.Load()), attr=impl_name, ctx=ast.Load()), args=[ast.Name(id=x.arg, ctx=ast.Load()) for x in a.args[1:]], keywords=[])
+            st.body = doc + [ast.Return(value=call)]
+            new_body.append(impl)
+        node.body = new_body
+        return node
+
+
 def rewrite_tree(root: Path, rename: bool, mode: str = "") -> int:
     n = 0
     sigs = collect_signatures(root) if mode in ("kw", "pos") else {}
     ptable = collect_param_names(root) if mode == "params" else {}
     for f in list(root.rglob("*.py")):
         tree = ast.parse(f.read_text())
+        if mode == "delegate":
+            tree = Delegator().visit(tree)
+            ast.fix_missing_locations(tree)
         if mode == "params":
             tree = ParamRenamer(ptable).visit(tree)
             ast.fix_missing_locations(tree)
